@@ -107,12 +107,27 @@ pub fn eval(it: &Item) -> String {
 
 fn packets() -> Vec<Vec<u8>> {
     let mut v = vec![kitchen_sink(Strategy::Max), kitchen_sink(Strategy::Plain), kitchen_sink(Strategy::Chain)];
-    for (fam, p) in crate::c06::l5_packets() {
-        if fam == "nest" && p.len() > 300 || fam == "many" || fam == "case" {
-            v.push(p);
-        }
+    let l5 = crate::c06::l5_packets();
+    // dictionary-filling packets first (a call that fills or wraps a 32-entry table, then calls sharing names)
+    for (fam, p) in l5.iter().filter(|(f, _)| *f == "many") {
+        let _ = fam;
+        v.push(p.clone());
     }
-    for s in closure_seeds(0) {
+    if let Some((_, p)) = l5.iter().filter(|(f, _)| *f == "nest").last() {
+        v.push(p.clone());
+    }
+    if let Some((_, p)) = l5.iter().find(|(f, _)| *f == "case") {
+        v.push(p.clone());
+    }
+    {
+        // shares suffixes with the "many" family: l3.d, l30.d, q.zone
+        let mut m = base_msg(&nm("q.zone"), T_A, true);
+        for i in [3usize, 30, 35] {
+            m.an.push(mx_rec(&name_from_labels(&[format!("l{}", i).as_bytes(), b"d"]), 1, 1, &nm("mail.q.zone")));
+        }
+        v.push(encode(&m, Strategy::Plain));
+    }
+    for s in closure_seeds(0).into_iter().take(3) {
         v.push(s);
     }
     let mut bad = kitchen_sink(Strategy::Max);
@@ -206,6 +221,16 @@ pub fn conc_items() -> Vec<Item> {
         Item::Rename(encode(&m, Strategy::Max), nm("k"), a.clone(), true),
         Item::Rename(encode(&m2, Strategy::Plain), nm("q.r"), nm("x.y"), true),
         Item::Parse(encode(&m2, Strategy::Max)),
+        Item::Parse(encode(&m2, Strategy::Plain)),
+        Item::Parse({
+            // compressed records first, then a record without any pointer: a parse that has seen pointers
+            // and still has work to do when another thread's call starts
+            let mut m3 = base_msg(&ba, T_A, true);
+            m3.an.push(name_rec(&ba, T_CNAME, 1, &a));
+            m3.ar.push(a_rec(&nm("zz"), 1, [4, 4, 4, 4]));
+            m3.ar.push(a_rec(&nm("yy"), 1, [5, 5, 5, 5]));
+            encode(&m3, Strategy::Max)
+        }),
         Item::FromString("a. 1 IN SOA ns.a. admin.a. ( 1 2 3 4 5 )".to_string()),
     ]
 }
